@@ -116,7 +116,19 @@
    instance "quantity zero, error zero" of the cell invariant: a cell without a booking of a
    non-zero quantity receives no value).
 
-   NOT PROVED (decided on every run by evaluating mtm_row_mapped / within_bound on the binary's output
+   REPORTS RESTRICTED BY --account / --commodity (Spec/ValuationWhereSpec.v, Proofs/MarkToMarketWhere.v; last
+   part of this file): the filters are the Where predicate of the report's query -- they select what
+   the report adds up, not what ComputePrices and Valuate see; prices of commodities that are not
+   shown are still needed and used.  held_where = the held commodities c with cfg_where cfg a c;
+   market_value_where / mtm_expected_where / step_bound_where / mtm_row_where / mtm_row_where_mapped:
+   the sums above over held_where, for the accounts that pass --account (sources_of).
+   C03_windowed_mapped_where and C03_model_meets_spec_where_mapped: the window and the verdict of the
+   runtime check for EVERY configuration -- no hypothesis on mapping, remap or filters;
+   C03_model_meets_spec_where for an account shown as itself; C03_filtered_out_row_zero;
+   C03_where_unfiltered, C03_where_mapped_unfiltered: without filters the specification is the one
+   above.
+
+   NOT PROVED (decided on every run by evaluating mtm_row_where_mapped / within_bound on the binary's output
    and by the byte-exact correspondence of the model):
    * the printed row: that the renderer's collapsed line of a valued row is the sum over the
      commodity keys of the node and the cumulative presentation over the columns (C02_row_cumulative
@@ -856,6 +868,166 @@ Example C03_example_mapped_verdict :
       = [57407409 # 50000000; 87407409 # 50000000; 82962963 # 20000000] /\
     ValuationSpec.within_bound (mkDec 414814815 (-8)) (mkDec 4148148159 (-9)) 9 = true /\
     fst (match mtm_row_mapped exm_cfg dl exm_x with Some x => x | None => ([exm_x], []) end) = []
+  | _, _ => False
+  end.
+Proof. vm_compute. repeat split; discriminate. Qed.
+
+(* ================================================================== reports restricted by --account / --commodity *)
+(* Vocabulary: Spec/ValuationWhereSpec.v (what Extract/drv/drv_c03.ml evaluates on EVERY valued
+   report): held_where cfg posts a = the commodities c account a holds with cfg_where cfg a c = true
+   (a passes --account and c passes --commodity); market_value_where, mtm_expected_where: the sums of
+   ValuationSpec over held_where instead of all held commodities -- prices (price_on) and quantities
+   (qty_upto) are those of the whole journal: the filters are the Where predicate of the report's
+   query, they do not reach ComputePrices or Valuate, the price of a shown commodity may go through
+   commodities that are not shown; step_bound_where: one step per booking of the account in a shown
+   commodity in the window, one per (date of the journal in the window, shown commodity), + 1;
+   mtm_row_where (an account shown as itself), mtm_row_where_mapped (the sum over
+   MarkToMarketMappedSpec.sources_of: the accounts that land on the row and pass --account).
+   Proofs/MarkToMarketWhere.v.
+
+   The theorems above carry the hypothesis "passes the filters" in the form (forall c, cfg_where cfg
+   a c = true) (C03_windowed_expected, C03_model_meets_spec) or ask the list of commodities of the
+   row to contain every commodity the aggregated accounts hold AND to pass --commodity
+   (C03_windowed_mapped_held, C03_model_meets_spec_mapped), which a report with --commodity cannot
+   satisfy when an account holds a commodity that is filtered out.  The theorems below have no
+   hypothesis on the filters. *)
+From Knut Require Import Spec.ValuationWhereSpec Proofs.MarkToMarketWhere.
+Open Scope Q_scope.
+
+(* the allowance: the tight count of C03_windowed_tight over the shown commodities *)
+Theorem C03_step_bound_where_suffices : forall cfg dl V a W E,
+  (row_steps_tight dl V a W E (held_where cfg (flat_postings dl) a) <= step_bound_where cfg dl a W E)%Z.
+Proof. exact row_steps_step_bound_where. Qed.
+Print Assumptions C03_step_bound_where_suffices.
+
+(* the decimal the check computes is the rational sum over the shown commodities *)
+Theorem C03_expected_where_sum : forall cfg dl V a W E e,
+  mtm_expected_where cfg dl V a W E = Some e ->
+  dvalue e == mv_row dl V a E (held_where cfg (flat_postings dl) a) - mv_row dl V a (W - 1) (held_where cfg (flat_postings dl) a).
+Proof. exact mtm_expected_where_sum. Qed.
+Print Assumptions C03_expected_where_sum.
+
+(* THE MODEL MEETS THE CHECK'S VERDICT, FILTERS INCLUDED, for an account shown as itself: for every
+   configuration with a valuation commodity and every journal on which the balance command succeeds,
+   every asset/liability account shown as itself and every column, mtm_row_where exists, has one
+   entry per column, EVERY entry carries an expectation, and the model's row -- the sum of the
+   node's cells over the commodities the report shows of the account -- is within the allowance.
+   (An account that does not pass --account has held_where = []: expectation 0, row 0.) *)
+Theorem C03_model_meets_spec_where : forall cfg ds r part V,
+  bc_valuation cfg = Some V ->
+  balance_report cfg ds = COk (r, part) ->
+  exists dl,
+    parse_directives ds = MOk dl /\
+    (postings_syntactic dl ->
+     forall a, account_ok a = true -> is_AL a = true -> shows_account cfg a ->
+       (p_start (span part) <= p_end (span part))%Z ->
+       exists exps,
+         mtm_row_where cfg dl a = Some exps /\ length exps = length (end_dates part) /\
+         forall j col eo n, nth_error (end_dates part) j = Some col -> nth_error exps j = Some (eo, n) ->
+           exists e, eo = Some e /\
+           let coms := held_where cfg (flat_postings dl) a in
+           Qabs (row_value a part col r coms - dvalue e) <= inject_Z n * (1 # 100000000) /\
+           forall o, dvalue o == row_value a part col r coms -> ValuationSpec.within_bound o e n = true).
+Proof. exact model_meets_spec_where. Qed.
+Print Assumptions C03_model_meets_spec_where.
+
+(* THE WINDOW for any row of asset/liability type of any valued report: whatever --mapping, --remap,
+   --account, --commodity are, over any duplicate-free list coms of commodities that pass
+   --commodity and contains what the aggregated accounts hold of those (the commodity keys of the
+   row), the row is the sum over the accounts that land on it and pass --account (row_sources) of
+   the mark-to-market change of what the report shows of them, up to the sum of their tight step
+   counts. *)
+Theorem C03_windowed_mapped_where : forall cfg ds r part V,
+  bc_valuation cfg = Some V ->
+  balance_report cfg ds = COk (r, part) ->
+  exists dl,
+    parse_directives ds = MOk dl /\
+    new_partition (clip (mkPeriod (bc_from cfg) (bc_to cfg)) (journal_period dl)) (bc_interval cfg) (bc_last cfg) = POk part /\
+    (postings_syntactic dl ->
+     forall b srcs col coms, account_ok b = true -> is_AL b = true -> row_sources cfg dl b srcs ->
+       NoDup coms -> (forall c, In c coms -> com_pass cfg c = true) ->
+       (forall a, In a srcs -> incl (held_where cfg (flat_postings dl) a) coms) ->
+       (p_start (span part) <= p_end (span part))%Z -> In col (end_dates part) ->
+       Qabs (row_value b part col r coms
+             - (mv_where_sum cfg dl V srcs col - mv_where_sum cfg dl V srcs (p_start (span part) - 1)))
+         <= inject_Z (steps_where_sum cfg dl V srcs (p_start (span part)) col) * (1 # 100000000)).
+Proof. exact windowed_row_mapped_where. Qed.
+Print Assumptions C03_windowed_mapped_where.
+
+(* THE MODEL MEETS THE CHECK'S VERDICT ON EVERY ROW OF ASSET/LIABILITY TYPE OF EVERY VALUED REPORT
+   (no condition on the mapping, the remap or the filters): mtm_row_where_mapped exists, lists the
+   accounts the row adds up, has one entry per column, every entry carries an expectation, and the
+   model's row lies within the summed allowance of the summed expectation -- as rationals and as the
+   boolean within_bound the check evaluates. *)
+Theorem C03_model_meets_spec_where_mapped : forall cfg ds r part V,
+  bc_valuation cfg = Some V ->
+  balance_report cfg ds = COk (r, part) ->
+  exists dl,
+    parse_directives ds = MOk dl /\
+    (postings_syntactic dl ->
+     forall b, account_ok b = true -> is_AL b = true ->
+       (p_start (span part) <= p_end (span part))%Z ->
+       exists srcs exps,
+         mtm_row_where_mapped cfg dl b = Some (srcs, exps) /\ row_sources cfg dl b srcs /\
+         length exps = length (end_dates part) /\
+         forall j col eo n, nth_error (end_dates part) j = Some col -> nth_error exps j = Some (eo, n) ->
+           exists e, eo = Some e /\
+           forall coms, NoDup coms -> (forall c, In c coms -> com_pass cfg c = true) ->
+             (forall a, In a srcs -> incl (held_where cfg (flat_postings dl) a) coms) ->
+             Qabs (row_value b part col r coms - dvalue e) <= inject_Z n * (1 # 100000000) /\
+             forall o, dvalue o == row_value b part col r coms -> ValuationSpec.within_bound o e n = true).
+Proof. exact model_meets_spec_where_mapped. Qed.
+Print Assumptions C03_model_meets_spec_where_mapped.
+
+(* a row on which no account that passes --account lands -- in particular an account shown as itself
+   that does not pass -- is zero in every column, exactly, over the commodities that pass *)
+Theorem C03_filtered_out_row_zero : forall cfg ds r part V,
+  bc_valuation cfg = Some V ->
+  balance_report cfg ds = COk (r, part) ->
+  exists dl,
+    parse_directives ds = MOk dl /\
+    (postings_syntactic dl ->
+     forall b col coms, account_ok b = true -> is_AL b = true -> sources_of cfg dl b = [] ->
+       NoDup coms -> (forall c, In c coms -> com_pass cfg c = true) ->
+       (p_start (span part) <= p_end (span part))%Z -> In col (end_dates part) ->
+       row_value b part col r coms == 0).
+Proof. exact filtered_out_row_zero. Qed.
+Print Assumptions C03_filtered_out_row_zero.
+
+(* the specification of filtered reports extends the old one: where every commodity of the account
+   passes -- in particular without --account and --commodity -- it is mtm_row / mtm_row_mapped *)
+Theorem C03_where_unfiltered : forall cfg dl a, (forall c, cfg_where cfg a c = true) ->
+  mtm_row_where cfg dl a = ValuationSpec.mtm_row cfg dl a.
+Proof. exact mtm_row_where_unfiltered. Qed.
+Print Assumptions C03_where_unfiltered.
+
+Theorem C03_where_mapped_unfiltered : forall cfg dl b, bc_accounts cfg = [] -> bc_commodities cfg = [] ->
+  mtm_row_where_mapped cfg dl b = mtm_row_mapped cfg dl b.
+Proof. exact mtm_row_where_mapped_unfiltered. Qed.
+Print Assumptions C03_where_mapped_unfiltered.
+
+(* A report with --commodity ^A$ (Proofs/MarkToMarketWhere.v exw_journal): Assets:B holds A and D; A
+   is quoted in D only, D in the valuation commodity C, so the price of A in C goes through D, which
+   the report does not show.  Daily columns over 03-02 .. 03-04, --close, the purchases of 03-01 lie
+   before the window.  The report shows 1.125, 2.25, 4.5 (1.8 * 5 - 1.5 * 3 in the last column: the A
+   of the account at 2 D * 2.5 C), nothing under D; mtm_row_where expects exactly that, within 2, 4, 5
+   steps; the unfiltered expectation mtm_row (2.125, 3.25, 5.5: with the 2 D of the account) does not
+   describe this report. *)
+Example C03_example_filtered_report :
+  match balance_report exw_cfg exw_journal, parse_directives exw_journal with
+  | COk (r, part), MOk dl =>
+    postings_syntactic_b dl = true /\ account_ok exr_a = true /\ is_AL exr_a = true /\
+    ValuationSpec.held_commodities (flat_postings dl) exr_a = [exr_c; exw_d] /\
+    held_where exw_cfg (flat_postings dl) exr_a = [exr_c] /\
+    mtm_row_where exw_cfg dl exr_a
+      = Some [(Some (mkDec 1125 (-3)), 2%Z); (Some (mkDec 2250 (-3)), 4%Z); (Some (mkDec 450 (-2)), 5%Z)] /\
+    ValuationSpec.mtm_row exw_cfg dl exr_a
+      = Some [(Some (mkDec 2125 (-3)), 3%Z); (Some (mkDec 3250 (-3)), 6%Z); (Some (mkDec 550 (-2)), 8%Z)] /\
+    map (fun col => Qred (row_value exr_a part col r [exr_c])) (end_dates part) = [9 # 8; 9 # 4; 9 # 2] /\
+    map (fun col => Qred (row_value exr_a part col r [exw_d])) (end_dates part) = [0; 0; 0] /\
+    mtm_row_where_mapped exw_cfg dl exr_a
+      = Some ([exr_a], [(Some (mkDec 1125 (-3)), 2%Z); (Some (mkDec 2250 (-3)), 4%Z); (Some (mkDec 450 (-2)), 5%Z)]) /\
+    ValuationSpec.within_bound (mkDec 45 (-1)) (mkDec 450 (-2)) 5 = true
   | _, _ => False
   end.
 Proof. vm_compute. repeat split; discriminate. Qed.
